@@ -39,7 +39,7 @@ pub fn prop() -> Prop {
         stub: &["transport", "store", "glue", "random source (recording)"],
         independent: &["Python reference implementation of RFC 9591 / BIP-340 / BIP-341 (ref/frost_ref.py, curves.py, hashes.py, bip340_ref.py)"],
         ref_sample: |_| 0,
-        required_probes: &["session_recorded", "signers_ge_4", "signers_ge_9", "ids_derived", "ids_scalar", "ids_u16ext", "msg_empty", "msg_multiblock", "keys_dkg", "taproot_tweak", "single_sig_lib_made", "single_sig_ref_made", "ident_swept"],
+        required_probes: &["session_recorded", "signers_ge_4", "signers_ge_9", "signers_ge_33", "preprocess_batch", "ids_derived", "ids_scalar", "ids_u16ext", "msg_empty", "msg_multiblock", "keys_dkg", "taproot_tweak", "single_sig_lib_made", "single_sig_ref_made", "ident_swept"],
         prepare: Some(prepare),
     }
 }
@@ -87,6 +87,13 @@ fn gen_c<C: Suite>(seed: u64, run: u64, tier: Tier) -> Scenario {
         n = n.min(if slow { 3 } else { 5 });
         t = t.min(n);
     }
+    // rare wide sessions: more than 32 signers, counts on both sides of block boundaries (33, 40, 64, 65, 70, 97)
+    let mut wide_k = 0usize;
+    if !dkg && C::COST <= 3 && p.chance(1, if tier == Tier::Quick { 50 } else { 80 }) {
+        n = *p.pick(&[33u16, 40, 64, 65, 70, 97]);
+        t = (*p.pick(&[2u16, 3, 33])).min(n);
+        wide_k = p.range((t as u64).max(33), n as u64) as usize;
+    }
     s.n = n;
     s.t = t;
     s.id_scheme = (*p.pick(&ID_SCHEMES)).to_string();
@@ -109,7 +116,17 @@ fn gen_c<C: Suite>(seed: u64, run: u64, tier: Tier) -> Scenario {
         if tier == Tier::Thorough && p.chance(1, 10) {
             msg = p.bytes(4096);
         }
-        ph.push(Inst::Sign { signers: gen_signers(&mut p, &pool, t as usize), msg_hex: hexs(&msg), mode });
+        let signers = if wide_k > 0 {
+            let mut sg = p.subset(n as usize, wide_k);
+            p.shuffle(&mut sg);
+            sg
+        } else {
+            gen_signers(&mut p, &pool, t as usize)
+        };
+        ph.push(Inst::Sign { signers, msg_hex: hexs(&msg), mode });
+        if wide_k > 0 {
+            break;
+        }
     }
     s.phases.push(ph);
     s.sched = Sched::Random;
@@ -204,6 +221,9 @@ fn exec_c<C: Suite>(scen: &Scenario) -> Exec {
         if shares.len() >= 9 {
             rep.probe("signers_ge_9");
         }
+        if shares.len() >= 33 {
+            rep.probe("signers_ge_33");
+        }
         if package.message().is_empty() {
             rep.probe("msg_empty");
         }
@@ -234,6 +254,36 @@ fn exec_c<C: Suite>(scen: &Scenario) -> Exec {
             rep.evaluations += 1;
             rep.probe("ident_swept");
         }
+    }
+    // ---- nonces from the batch entry point (round1::preprocess): every pair, not only the first, is nonce_generate ------------
+    {
+        let mut g = stream(scen.seed, scen.run, "c02/preprocess");
+        let k = *g.pick(&[2u8, 2, 3, 4, 7]);
+        let share_scalar = match g.below(6) {
+            0 => one::<C>(),
+            _ => sc_random_nonzero::<C>(&mut g),
+        };
+        let share = share_from_scalar::<C>(&share_scalar);
+        let mut rng = SimRng::good(stream(scen.seed, scen.run, "c02/preprocess/rng"));
+        let (nonces, comms) = frost::round1::preprocess::<C, _>(k, &share, &mut rng);
+        if nonces.len() != k as usize || comms.len() != k as usize {
+            return Exec::Violation(Violation::new("C02", "C02.preprocess_wrong_count", format!("preprocess({k}) returned {} nonce pairs and {} commitment pairs", nonces.len(), comms.len())), rep);
+        }
+        // candidates: every 32-byte draw the library made, in order (the reference accepts a nonce if SOME draw explains it,
+        // so that the order of draws inside the batch is not part of the oracle)
+        let out = &rng.out;
+        let cands: Vec<String> = rng.draws.iter().filter(|(_, l)| *l == 32).map(|(o, l)| hexs(&out[*o..*o + *l])).collect();
+        let sb = hexs(&share.serialize());
+        for (j, (nn, cc)) in nonces.iter().zip(comms.iter()).enumerate() {
+            if nn.commitments() != cc {
+                return Exec::Violation(Violation::new("C02", "C02.preprocess_commitment_mismatch", format!("preprocess({k}) pair {j}: returned commitments are not the commitments of the returned nonces")), rep);
+            }
+            for (which, nb, cb) in [("hiding", nn.hiding().serialize(), cc.hiding().serialize().unwrap_or_default()), ("binding", nn.binding().serialize(), cc.binding().serialize().unwrap_or_default())] {
+                rep.trace.push(json!({"type":"nonce","suite":C::NAME,"run":run_tag,"what":format!("preprocess({k}) pair {j} {which}"),"share":sb,"rand_candidates":cands,"nonce":hexs(&nb),"commitment":hexs(&cb)}).to_string());
+                rep.evaluations += 1;
+            }
+        }
+        rep.probe("preprocess_batch");
     }
     // ---- single-signer signatures, both directions -------------------------------------------------------------
     {
